@@ -119,13 +119,15 @@ def run_pileup(ctx):
                       {"config": rcommon.describe(byid[aborted]), "schedule": schedule(aborted), "how": how})
 
     # measured coverage: how many requesters entered start() of one idle target together
-    sizes, fallbacks, nrel = {}, 0, 0
+    sizes, fallbacks, nrel, styles = {}, 0, 0, {}
     for p in info.values():
         fallbacks += 1 if p.get("fallback") else 0
         for rel in p["releases"]:
             nrel += 1
             key = str(len(rel["requesters"]))
             sizes[key] = sizes.get(key, 0) + 1
+            if len(rel["requesters"]) >= 2:
+                styles[rel.get("style")] = styles.get(rel.get("style"), 0) + 1
     limits = {}
     for r in runs:
         if any(len(rel["requesters"]) >= 2 for rel in info.get(r["run"], {}).get("releases", [])):
@@ -137,7 +139,9 @@ def run_pileup(ctx):
         " Simultaneous requesters (C04 only): %d pile-up builds (%d graphs with shared dependencies: fan-in of 2..16 on an ok / "
         "failing / unknown leaf, crossed request orders, shared sub-dependencies, root competing with its dependents, duplicates, "
         "fan-in on a cycle member, plus the shared corpus and %d random graphs) x limits {1,2,3,4,16} x hold policy "
-        "{shared labels, all labels, seeded subset} x release policy {most requesters, seeded}: %d releases, %d of them with >= 2 "
+        "{shared labels, all labels, seeded subset} x release policy {most requesters, seeded} x release style {plain unlock, FIFO "
+        "hand-off: the mutex is first driven into its hand-off mode so that every parked requester gets its first critical "
+        "section before any gets a second}: %d releases, %d of them with >= 2 "
         "requesters entering start() of the idle target together (counted into distinct); hook logs (%d events) replayed by the "
         "model. Plus %d rounds of 2..16 goroutines leaving a spin barrier into start() of one idle record (then 0..3 callers "
         "after it finished), target ok / failing / unknown, on %s CPUs."
@@ -146,7 +150,8 @@ def run_pileup(ctx):
     ctx.coverage["correspondence"]["pileup"] = {
         "cases": len(done_runs), "events": nev, "mismatches": len(rejected), "releases": nrel,
         "requesters_released_together": dict(sorted(sizes.items(), key=lambda kv: int(kv[0]))),
-        "runs_with_a_shared_pileup_by_limit": limits, "fallback_releases": fallbacks,
+        "runs_with_a_shared_pileup_by_limit": limits, "shared_pileups_by_release_style": styles,
+        "fallback_releases": fallbacks,
         "oracle_failures": len(oracles) + len(doracles), "direct": direct}
     ctx.log("pile-up: runs=%d events=%d rejected=%d releases=%d (>=2 requesters: %d) fallbacks=%d oracle_failures=%d; "
             "direct rounds=%s failures=%s" % (len(runs), nev, len(rejected), nrel, multi, fallbacks, len(oracles),
